@@ -30,7 +30,7 @@ CHECKS = {
    text="One step of every operation from every raw word of length <= 4, all histories of the mixed-operation menu to depth 5/6 as an explicit-state BFS on the observed letter vector, group and order axioms on all small triples, relator representative/permutations on all words up to length 6/8. Added: relators streamed to length 10/8/6 (14/10/8), letters at the integer-width boundaries.",
    note="Trusts the fixpoint-cancellation reference R3. stateright paths are re-validated by a plain replay before being reported.", ref="3/C10"),
  "C11": dict(tech="bounded exhaustive enumeration of (presentation, subgroup) pairs against a reference HLT Todd-Coxeter and known group orders",
-   text="Named finite groups x all sets of <= 2 words of length <= 3, and every 2-/3-generator presentation built from short cyclically reduced relators on which the reference enumeration finishes, x short subgroup generating sets; row count, permutation/inverse/transitivity/relator/subgroup-generator clauses and representatives checked on each. Added: subgroup generators to length 5/6 on the named groups, the empty word as generator and relator.",
+   text="Named finite groups x all sets of <= 2 words of length <= 3, and every 2-/3-generator presentation built from short cyclically reduced relators on which the reference enumeration finishes, x short subgroup generating sets; row count, permutation/inverse/transitivity/relator/subgroup-generator clauses and representatives checked on each. Added: subgroup generators to length 5/6 on the named groups, the empty word as generator and relator, every written form (rotations, inverses, conjugates) of every relator of the named groups.",
    note="Trusts the reference Todd-Coxeter (validated against 17 known orders at start-up) and |G| = index * |H| cross-check.", ref="3/C11"),
  "C12": dict(tech="bounded exhaustive enumeration of presentations x index bounds against a homomorphism-counting oracle ((1/n!) sum over transitive homs into S_n of |Aut|)",
    text="Named finite/infinite groups, every small presentation on 2 and 3 generators (including length-1 relators and the empty presentation), cyclic groups and D-symbol fundamental groups, every index bound k' <= k: tables valid, pairwise inequivalent, count per index equals the oracle. Added: 24 named groups against an independent backtracking low-index search (R5b) at index 4-16 (6-18), the empty relator, every written form (not one per rotation class) of every cyclically reduced relator of length <= 5/6.",
